@@ -6,7 +6,8 @@ case kinds:
   cw      {"period","own_shift","nstart","phase_shift","times":[..]} -> {"amp":[hex]}
   gauss   {"width":{form,value},"center":{form,value,"phase_shift"},"phase_shift","times":[..]} -> {"amp":[hex],"fw","fc"}
 """
-import json, os, sys
+import json
+import numpy as np, os, sys
 os.environ.setdefault("JAX_PLATFORMS", "cpu")
 import jax, jax.numpy as jnp, numpy as np
 jax.config.update("jax_enable_x64", True)
@@ -32,6 +33,12 @@ def one(c):
         p = CustomTimeSignalProfile(signal=jnp.asarray(c["signal"], dtype=jnp.float64), time_step_duration=float(c["dt"]),
                                     start_time=float(c["start"]), outside_value=float(c["outside"]), interpolation=c["mode"])
         return {"amp": hx(p.get_amplitude(t, period=1.0))}
+    if k == "custom_c":      # complex-valued sampled signal (analytic / quadrature waveforms)
+        sig = jnp.asarray(np.asarray(c["signal"], dtype=np.float64) + 1j * np.asarray(c["signal_im"], dtype=np.float64))
+        p = CustomTimeSignalProfile(signal=sig, time_step_duration=float(c["dt"]), start_time=float(c["start"]),
+                                    outside_value=float(c["outside"]), interpolation=c["mode"])
+        a = np.asarray(p.get_amplitude(t, period=1.0))
+        return {"amp": hx(np.real(a)), "amp_im": hx(np.imag(a)), "is_complex": bool(np.iscomplexobj(a))}
     if k == "cw":
         p = SingleFrequencyProfile(phase_shift=float(c["own_shift"]), num_startup_periods=c["nstart"])
         return {"amp": hx(p.get_amplitude(t, period=float(c["period"]), phase_shift=float(c["phase_shift"])))}
